@@ -69,7 +69,7 @@ func instrument(repo string, rw Rewrite, outDir string, rep *InstrReport) (map[s
 
 	// cache key: content of all files + options
 	h := sha256.New()
-	fmt.Fprintf(h, "v3|%s|%v|%v|%v\n", rw.Dir, rw.VRange, rw.Shim, rw.Files)
+	fmt.Fprintf(h, "v4|%s|%v|%v|%v\n", rw.Dir, rw.VRange, rw.Shim, rw.Files)
 	srcs := map[string][]byte{}
 	for _, n := range names {
 		b, err := os.ReadFile(filepath.Join(dir, n))
@@ -147,6 +147,8 @@ func instrument(repo string, rw Rewrite, outDir string, rep *InstrReport) (map[s
 					repl, defName = rtImport+"vatomic", "atomic"
 				case "time":
 					repl, defName = rtImport+"vtime", "time"
+				case "go.etcd.io/bbolt":
+					repl, defName = rtImport+"vbolt", "bbolt"
 				default:
 					continue
 				}
